@@ -5,6 +5,7 @@ import (
 	"testing"
 
 	biscuit "github.com/biscuit-auth/biscuit-go/v2"
+	"github.com/biscuit-auth/biscuit-go/v2/datalog"
 	"pgregory.net/rapid"
 
 	"verif/internal/bridge"
@@ -124,6 +125,23 @@ func checkC18(c C18Case, rec *obs.Recorder) *obs.Violation {
 	}
 
 	// saving is refused once the authorizer has been evaluated
+	// options given when the receiving authorizer was created (a fact limit of 1 here) still hold
+	// after LoadPolicies, as they do when the same content is added directly
+	{
+		lim := biscuit.WithWorldOptions(datalog.WithMaxFacts(1), datalog.WithMaxDuration(bridge.LongDuration))
+		r2, e1 := b2.AuthorizerFor(biscuit.WithSingularRootPublicKey(pub), lim)
+		d2, e2 := b2.AuthorizerFor(biscuit.WithSingularRootPublicKey(pub), lim)
+		if e1 != nil || e2 != nil {
+			return obs.Violf("T2 does not verify: %v %v", e1, e2)
+		}
+		if lerr, pan := loadSafely(r2, snap); pan == nil && lerr == nil {
+			bridge.AddAuthz(d2, c.Authz)
+			if o1, o2 := bridge.Authorize(r2), bridge.Authorize(d2); o1.Class != o2.Class {
+				return obs.ViolK("options-after-load", "%s, both authorizers created with a fact limit of 1: restored gives %s, the same content added directly gives %s", desc, o1, o2)
+			}
+		}
+	}
+
 	// a long-lived authorizer that serves one request per snapshot: another snapshot (other strings)
 	// loaded and evaluated first, Reset, then this one
 	other := m.Authz{Facts: []m.Pred{m.P("c18_other", m.Str("c18_first"), m.Str("c18_second"))}, Policies: c.Authz.Policies}
@@ -320,7 +338,7 @@ func drawC18(t *rapid.T) C18Case {
 func TestC18(t *testing.T) {
 	rec := obs.New("C18")
 	defer rec.Flush(true)
-	rec.SetExtra("rule", "rapid: goal-directed authorizer content (all term types with non-empty sets, default and fresh symbols, 0-3 checks, 0-4 ordered policies of both kinds), token T1 with its own symbols where the snapshot is taken, token T2 (reloaded from bytes) where it is loaded, a panel of 3 queries, and one malformed snapshot (random bytes, bit flip, truncation, empty, version absent/2/4, policy without or with unknown kind, set of variables, operator without kind, term without content, out-of-range indexes; written with the independent writer). Oracle: the snapshot decodes independently to the right number of elements; fresh authorizer for T2 + LoadPolicies has the same Authorize class and panel answers as fresh authorizer for T2 + the content added directly; the same holds for an authorizer that first served another snapshot (other strings) and was Reset; the authorizer that was saved, evaluated afterwards, gives the same outcome and panel answers as a never-saved twin; SerializePolicies fails after Authorize or Query, and still fails after the evaluated authorizer has loaded its own snapshot; LoadPolicies on malformed bytes returns an error (where the bytes are certainly malformed) and never panics, nor does a later Authorize. Non-trivial = a fresh symbol, >= 1 check, >= 2 policies and an outcome other than no-matching-policy; distinct by (T1, T2, content).")
+	rec.SetExtra("rule", "rapid: goal-directed authorizer content (all term types with non-empty sets, default and fresh symbols, 0-3 checks, 0-4 ordered policies of both kinds), token T1 with its own symbols where the snapshot is taken, token T2 (reloaded from bytes) where it is loaded, a panel of 3 queries, and one malformed snapshot (random bytes, bit flip, truncation, empty, version absent/2/4, policy without or with unknown kind, set of variables, operator without kind, term without content, out-of-range indexes; written with the independent writer). Oracle: the snapshot decodes independently to the right number of elements; fresh authorizer for T2 + LoadPolicies has the same Authorize class and panel answers as fresh authorizer for T2 + the content added directly; a fact limit of 1 given when the receiving authorizer was created holds after LoadPolicies as it does for content added directly; the same holds for an authorizer that first served another snapshot (other strings) and was Reset; the authorizer that was saved, evaluated afterwards, gives the same outcome and panel answers as a never-saved twin; SerializePolicies fails after Authorize or Query, and still fails after the evaluated authorizer has loaded its own snapshot; LoadPolicies on malformed bytes returns an error (where the bytes are certainly malformed) and never panics, nor does a later Authorize. Non-trivial = a fresh symbol, >= 1 check, >= 2 policies and an outcome other than no-matching-policy; distinct by (T1, T2, content).")
 	rec.SetExtra("assumptions", []string{"non-empty sets only: empty sets are refused by the encoder by design"})
 	harness.RunWith(t, harness.Spec[C18Case]{ID: "C18", Draw: drawC18, Check: checkC18}, rec)
 }
